@@ -110,6 +110,19 @@ example : isDouble ((Entry.viaBindConst none .f64).code refP ⟨false, false, fa
 example : (Entry.viaClosedConst (some .f64) .f64).stored refP ⟨false, false, false⟩ = some .f64 := by
   decide
 
+/-- The hypothesis "no float64 is handed in" cannot be dropped: the unconditional statement is
+    FALSE (a float64 aval reaching `add_input_for_invar`, or a float64 array reaching
+    `bind_const_for_var`, is typed DOUBLE with the flag off).  On the real code the hypothesis is
+    violated by plugin abstract-evaluation rules that promote (float32, Python int) with numpy's
+    lattice (known findings F-C09-intpromote-*) and under a thread-local x64 override. -/
+theorem single_no_double_unconditional_refuted :
+    ¬ (∀ (c : Ctx) (e : Entry), c.flag = false →
+        isDouble (e.code refP c) = false ∧ e.stored refP c ≠ some .f64) := by
+  intro h
+  have := (h ⟨false, false, false⟩ (.viaBindConst none .f64) rfl).1
+  revert this
+  decide
+
 /-- `add_initializer_from_scalar` is immune: with the flag off it downcasts every float,
     float64 included. -/
 theorem initScalar_never_double (P : Policy) (hP : P.ok) (c : Ctx) (hflag : c.flag = false)
